@@ -1195,9 +1195,9 @@ class FnVerifier:
         return modelval.conv(ob.model, v.t, v.z)
 
     # ------------------------------------------------------------------ driver
-    def generate(self):
+    def generate(self, budget_s=None):
         t0 = time.time()
-        explore(self.run_one)
+        explore(self.run_one, budget_s=budget_s)
         self.stats["gen_s"] = time.time() - t0
         if self.bounded_notes:
             why = "; ".join("loop %s unrolled %d times (no invariant)" % kv for kv in sorted(self.bounded_notes.items()))
